@@ -118,6 +118,11 @@ fn new_koto() -> Koto {
     koto.prelude().insert("json", koto_json::make_module());
     koto.prelude().insert("yaml", koto_yaml::make_module());
     koto.prelude().insert("toml", koto_toml::make_module());
+    // hook H1 made visible to scripts: the number of registers in use above the running frame's base
+    koto.prelude().add_fn("verif_regs", |ctx| {
+        let (len, _, _, _, base) = ctx.vm.verif_stack_sizes();
+        Ok(KValue::Number(((len - base) as i64).into()))
+    });
     koto
 }
 
